@@ -86,6 +86,8 @@ BigPreds == { ABin(op, IV, Call1("int", AStr(D16a))) : op \in {"=", "!=", ">", "
                    ABetween(IV, AInt(3), Call1("int", AStr(D16b))), AIn(IV, <<Call1("int", AStr(D16a)), AInt(7)>>) }
 C01Cases ==
   { [st |-> Select(<<>>, w, <<>>, <<>>, NoLim), sid |-> sid] : w \in BigPreds, sid \in {"BA", "B"} }
+  \cup { [st |-> Select(<<>>, w, <<>>, <<>>, NoLim), sid |-> "R"] :
+            w \in { ABin("~=", AKey, AVal), ABin("~=", AVal, AKey), ABin("^=", AKey, AVal), AIn(AKey, <<AVal, AStr(a)>>), ABetween(AKey, AVal, AStr(dd)), ABin("|", ABin("~=", AKey, AVal), ABin("=", AVal, AStr(<<120>>))) } }
   \cup { [st |-> Select(<<>>, w, <<>>, <<>>, NoLim), sid |-> "I"] : w \in NumChains \cup { ABin(op, x, y) : op \in {"&", "or"}, x \in NumChains, y \in {ABin("^=", AKey, AStr(a))} } }
   \cup
   { [st |-> Select(<<>>, w, <<>>, <<>>, NoLim), sid |-> "T"] : w \in StrAtoms \cup Combos(SmallStr) }
@@ -301,6 +303,9 @@ C08Delete ==
             w \in { AIn(AKey, <<AStr(a), AVal>>), AIn(AKey, <<AVal, AStr(c1), AStr(<<122>>)>>), ABin("~=", AKey, AVal), ABin("&", ABin("~=", AKey, ABin("+", AStr(<<94>>), AVal)), ABin("!=", AKey, AStr(<<122>>))),
                     ABin("|", AIn(AKey, <<AStr(c2), AVal>>), ABin("=", AKey, AStr(a))) },
             lim \in {NoLim, Lim(0, 1), Lim(1, 1), Lim(0, 5)} }
+  \cup { [st |-> Stmt("delete", <<>>, w, <<>>, <<>>, lim), sid |-> "R"] :
+            w \in { ABin("~=", AKey, AVal), ABin("~=", AVal, AKey), ABin("^=", AKey, AVal), AIn(AKey, <<AVal, AStr(a)>>), ABin("&", ABin("~=", AKey, AVal), ABin(">", AKey, AStr(a))) },
+            lim \in {NoLim, Lim(1, 2)} }
 
 -----------------------------------------------------------------------------
 (* c07: ORDER BY *)
@@ -468,9 +473,11 @@ C05KFor(n) == { [st |-> CacheStmt(KS, PS, swap), sid |-> "K" \o ToString(n)] : K
 C05KCases == UNION { C05KFor(n) : n \in 1..(IF Scale >= 2 THEN 5 ELSE 4) }
 
 -----------------------------------------------------------------------------
-StoreOf(sid) == CASE sid = "T" -> StoreT [] sid = "I" -> StoreI [] sid = "F" -> StoreF [] sid = "E" -> <<>>
+\* values that are plain patterns for some of the keys (row-dependent regular expressions, prefixes, list items)
+StoreR == << SP(a, <<120>>), SP(ab, bb), SP(bb, bb), SP(<<99>>, a), SP(<<99, 97>>, <<99>>), SP(dd, <<122, 122>>), SP(<<100, 97>>, <<94, 100>>), SP(<<101>>, <<101, 36>>) >>
+StoreOf(sid) == CASE sid = "R" -> StoreR [] sid = "T" -> StoreT [] sid = "I" -> StoreI [] sid = "F" -> StoreF [] sid = "E" -> <<>>
                   [] sid = "J" -> StoreJ [] sid = "O" -> StoreO [] sid = "M" -> StoreM [] sid = "G" -> StoreG [] sid = "Z" -> StoreZ [] sid = "X" -> StoreX [] sid = "BA" -> StoreBA [] sid = "B" -> StoreB [] sid = "V" -> StoreV [] sid = "S40" -> SeqStore(40) [] sid = "S7" -> SeqStore(7) [] sid \in {"K" \o ToString(n) : n \in 1..5} -> StoreK(CHOOSE n \in 1..5 : "K" \o ToString(n) = sid) [] sid \in {SizeId(n) : n \in 0..100} -> SeqStore(CHOOSE n \in 0..100 : SizeId(n) = sid) [] OTHER -> <<>>
-StoreIds == {"T", "I", "F", "E", "J", "V", "O", "G", "M", "Z", "B", "X", "BA", "S40", "S7"} \cup {SizeId(n) : n \in SizesSmall \cup SizesBig} \cup {"K" \o ToString(n) : n \in 1..5}
+StoreIds == {"T", "I", "F", "E", "J", "V", "O", "G", "M", "Z", "B", "X", "BA", "R", "S40", "S7"} \cup {SizeId(n) : n \in SizesSmall \cup SizesBig} \cup {"K" \o ToString(n) : n \in 1..5}
 
 Cases == CASE Mode = "c01" -> C01Cases [] Mode = "pt" -> PtCases [] Mode = "c10" -> C10Cases [] Mode = "c04" -> C04Cases [] Mode = "c08" -> C08Select [] Mode = "c08d" -> C08Delete [] Mode = "c07" -> C07Cases [] Mode = "c09" -> C09Cases [] Mode = "c05" -> C05Cases [] Mode = "c05k" -> C05KCases [] OTHER -> {}
 
